@@ -34,7 +34,7 @@ ASSUMPTIONS = ["at an exact tie between an external event and an expiry either o
                "observed one) - exactly-once and no-stale-delivery are still enforced"]
 EXPECT_LABELS = {'all': ['fsm-log', 'fsm-state', 'one-timer', 'no-timer-after-stop', 'no-duration-error',
                          'timer-log', 'timer-state', 'iexp-log', 'iexp-output', 'rejected-no-timer']}
-EXPECT_NOTES = {'all': ['tie-event-expiry', 'event-before-expiry', 'event-after-expiry', 'zero-duration', 'inf-duration',
+EXPECT_NOTES = {'all': ['tie-event-first', 'tie-event-expiry', 'event-before-expiry', 'event-after-expiry', 'zero-duration', 'inf-duration',
                         'timed-event-rejected', 'stop-before-expiry']}
 FLOORS = {'quick': {'paths': 1000, 'checks': 5000}, 'thorough': {'paths': 10000, 'checks': 50000}}
 
@@ -64,6 +64,44 @@ def clamp(d):
 class RefLog:
     def __init__(self):
         self.log = []
+
+
+async def drive(loop, gaps, step, presched):
+    """Run step(0..n-1) at the cumulative instants of gaps.
+    presched=False: the harness task sleeps gap by gap (at an exact tie with a timer scheduled
+    earlier by the block, that timer's callback runs first).
+    presched=True: every step is a plain loop callback scheduled up front, i.e. BEFORE any timer the
+    block creates later: at an exact tie the external event is processed first, while the block's
+    timer is due but has not run yet.  Together the two modes cover both orders of a tie."""
+    if not presched:
+        for i, g in enumerate(gaps):
+            await asyncio.sleep(g)
+            if step(i) is False:
+                break
+        return
+    fut = loop.create_future()
+    box = {}
+
+    def cb(i):
+        if box.get('stop'):
+            return
+        try:
+            if step(i) is False or i == len(gaps) - 1:
+                box['stop'] = True
+                if not fut.done():
+                    fut.set_result(None)
+        except BaseException as err:      # engine control exceptions must not be swallowed by the loop
+            box['exc'] = err
+            box['stop'] = True
+            if not fut.done():
+                fut.set_result(None)
+    t = loop.time()
+    for i, g in enumerate(gaps):
+        t = t + g
+        loop.call_at(t, cb, i)
+    await fut
+    if 'exc' in box:
+        raise box['exc']
 
 
 def logs_equal(got, exp):
@@ -164,7 +202,7 @@ class FsmRef:
         return False       # poke
 
 
-def scen_fsm(env, k0, k1, k2, nev, ev0=None):
+def scen_fsm(env, k0, k1, k2, nev, ev0=None, presched=False):
     d0v, d0 = dur_value(env, k0 if k0 != 'absent' else 'none', 'd0')
     d1v, d1 = dur_value(env, k1, 'd1')
     accept = env.bool('accept_tick')
@@ -199,6 +237,7 @@ def scen_fsm(env, k0, k1, k2, nev, ev0=None):
                 if fsm_log_len() > len(ref.log) or (ref.state == 'armed' and not accept and not timers()):
                     ref.fire()
                 else:
+                    env.note('tie-event-first')       # the external event is handled while the timer is due
                     break
             else:
                 env.note('event-before-expiry')
@@ -213,12 +252,11 @@ def scen_fsm(env, k0, k1, k2, nev, ev0=None):
         simtask = asyncio.create_task(circ.run_forever())
         await circ.wait_init()
         ref._enter(loop.time(), 'idle', first=True)
-        for i in range(nev):
-            await asyncio.sleep(gaps[i])
+        def step(i):
             now = loop.time()
             sync_ref(now, lambda: len(probe.log))
             if ref.error:
-                break
+                return False
             et = ev0 if (i == 0 and ev0) else env.pick(FSM_EVENTS, f'ev{i}')
             d2v, d2 = (None, None)
             data = {}
@@ -235,7 +273,7 @@ def scen_fsm(env, k0, k1, k2, nev, ev0=None):
                 env.note('no-duration')
                 env.check('no-duration-error', ret == 'error' and isinstance(circ.error, edzed.EdzedCircuitError),
                           info=lambda: (ret, circ.error))
-                break
+                return False
             env.check('fsm-ret', ret is exp_ret, info=lambda: (et, ret, exp_ret))
             env.check('fsm-state', fsm.state == ref.state, info=lambda: (et, fsm.state, ref.state))
             tm = timers()
@@ -247,6 +285,8 @@ def scen_fsm(env, k0, k1, k2, nev, ev0=None):
                     env.note('zero-duration')
             if d2 == 'inf' or (d2 is None and ref.eff('armed', None) == 'inf'):
                 env.note('inf-duration')
+
+        await drive(loop, gaps, step, presched)
         if not ref.error:
             # stop after a symbolic delay, then let the clock run on: nothing may fire any more
             await asyncio.sleep(t_stop_gap)
@@ -322,7 +362,7 @@ class TimerRef:
         return True
 
 
-def scen_timer(env, mode, restartable, nev):
+def scen_timer(env, mode, restartable, nev, presched=False):
     circ = fresh_circuit()
     loopref = []
     probe = Probe('probe', clock=lambda: loopref[0].time())
@@ -360,6 +400,7 @@ def scen_timer(env, mode, restartable, nev):
             elif ref.expiry == now:
                 env.note('tie-event-expiry')
                 if tm.state == ref.state:      # the expiry always toggles the state: not fired yet
+                    env.note('tie-event-first')
                     break
             else:
                 env.note('event-before-expiry')
@@ -375,11 +416,7 @@ def scen_timer(env, mode, restartable, nev):
         asyncio.create_task(circ.run_forever())
         await circ.wait_init()
         ref._enter(loop.time(), initdef)
-        for i in range(nev):
-            # keep astable runs bounded: the gap is shorter than maxfire periods (assumed)
-            if ref.expiry is not None and mode in ('astable', 'period'):
-                env.assume(gaps[i] <= 3 * ((t_on if t_on is not None else 0) + (t_off if t_off is not None else 0)) / 2)
-            await asyncio.sleep(gaps[i])
+        def step(i):
             now = loop.time()
             sync_ref(now)
             et = env.pick(['start', 'stop', 'toggle'], f'ev{i}')
@@ -395,6 +432,13 @@ def scen_timer(env, mode, restartable, nev):
                       info=lambda: (et, tm.state, ref.state))
             env.check('one-timer', len(timers()) == (1 if ref.expiry is not None else 0),
                       info=lambda: (timers(), ref.expiry))
+
+        if mode in ('astable', 'period'):
+            # keep astable runs bounded (assumed BEFORE the waits): every gap is shorter than 1.5 periods
+            for g in gaps:
+                env.assume(g <= 3 * ((t_on if t_on is not None else 0) + (t_off if t_off is not None else 0)) / 2)
+        await drive(loop, gaps, step, presched)
+        sync_ref(loop.time())          # an expiry due at this very instant has run before this task resumed
         await circ.shutdown()
         env.check('no-timer-after-stop', not timers())
         n0 = len(probe.log)
@@ -414,7 +458,7 @@ def scen_timer(env, mode, restartable, nev):
 # ------------------------------------------------------------------------------------------
 # InputExp
 
-def scen_inputexp(env, kdef, kev, nev):
+def scen_inputexp(env, kdef, kev, nev, presched=False):
     circ = fresh_circuit()
     loopref = []
     probe = Probe('probe', clock=lambda: loopref[0].time())
@@ -440,6 +484,7 @@ def scen_inputexp(env, kdef, kev, nev):
         elif ref['expiry'] == now:
             env.note('tie-event-expiry')
             if ie.state == 'valid':
+                env.note('tie-event-first')
                 return
         else:
             env.note('event-before-expiry')
@@ -454,8 +499,7 @@ def scen_inputexp(env, kdef, kev, nev):
         await circ.wait_init()
         out(loop.time(), 'EXPIRED')
         vals = []
-        for i in range(nev):
-            await asyncio.sleep(gaps[i])
+        def step(i):
             now = loop.time()
             sync_ref(now)
             v = ('v', i)
@@ -474,7 +518,7 @@ def scen_inputexp(env, kdef, kev, nev):
                 env.note('no-duration')
                 env.check('no-duration-error', ret == 'error' and isinstance(circ.error, edzed.EdzedCircuitError))
                 ref['error'] = True
-                break
+                return False
             env.check('iexp-ret', ret is True)
             ref['expiry'] = None
             if eff == 'inf':
@@ -489,6 +533,8 @@ def scen_inputexp(env, kdef, kev, nev):
                 ref['expiry'] = now + eff
             env.check('iexp-output', ie.output == ref['value'], info=lambda: (ie.output, ref['value']))
             env.check('one-timer', len(timers()) == (1 if ref['expiry'] is not None else 0))
+
+        await drive(loop, gaps, step, presched)
         if ref['error']:
             try:
                 await simtask
@@ -538,14 +584,27 @@ def shards(tier):
                     out.append({'name': f'fsm d0={k0} t_armed={k1} duration={k2} n={n} ev0={ev0}', 'scenario': 'scen_fsm',
                                 'params': {'k0': k0, 'k1': k1, 'k2': k2, 'nev': n, 'ev0': ev0},
                                 'cost': 3 ** ks.count('sym')})
+                    if 'sym' in ks and ev0 in ('arm', 'goto-armed', None) and (tier == 'thorough' or ks.count('sym') == 1):
+                        # events pre-scheduled as loop callbacks: at a tie they run BEFORE the block's timer
+                        out.append({'name': f'fsm d0={k0} t_armed={k1} duration={k2} n={n} ev0={ev0} presched',
+                                    'scenario': 'scen_fsm',
+                                    'params': {'k0': k0, 'k1': k1, 'k2': k2, 'nev': n, 'ev0': ev0, 'presched': True},
+                                    'cost': 3 ** ks.count('sym')})
     for mode in ('bistable', 'mono', 'mono-off', 'astable', 'period'):
         for restartable in (True, False):
             n = nev if mode in ('bistable', 'mono', 'mono-off') else max(1, nev - 1)
-            out.append({'name': f'timer {mode} restartable={restartable} n={n}', 'scenario': 'scen_timer',
-                        'params': {'mode': mode, 'restartable': restartable, 'nev': n},
-                        'cost': 10 if mode in ('astable', 'period') else 3})
+            for ps in (False, True):
+                if ps and mode == 'bistable':
+                    continue
+                out.append({'name': f'timer {mode} restartable={restartable} n={n}' + (' presched' if ps else ''),
+                            'scenario': 'scen_timer',
+                            'params': {'mode': mode, 'restartable': restartable, 'nev': n, 'presched': ps},
+                            'cost': 10 if mode in ('astable', 'period') else 3})
     for kdef in ('none', 'sym', 'inf', 'str'):
         for kev in DKINDS:
-            out.append({'name': f'inputexp duration={kdef} per-event={kev} n={nev}', 'scenario': 'scen_inputexp',
-                        'params': {'kdef': kdef, 'kev': kev, 'nev': nev}})
+            for ps in (False, True):
+                if ps and 'sym' not in (kdef, kev):
+                    continue
+                out.append({'name': f'inputexp duration={kdef} per-event={kev} n={nev}' + (' presched' if ps else ''),
+                            'scenario': 'scen_inputexp', 'params': {'kdef': kdef, 'kev': kev, 'nev': nev, 'presched': ps}})
     return out
